@@ -156,9 +156,15 @@ class CxxModule:
         return cands[0] if cands else None
 
 
+def _re_word(word, text):
+    """does `word` occur in `text` as a whole identifier (TimeZone in `const TimeZone &`, not in `TimeZoneData`)?"""
+    import re
+    return re.search(r'(?<![A-Za-z0-9_])%s(?![A-Za-z0-9_])' % re.escape(word), text) is not None
+
+
 def _copy_value(o, depth=0):
     """copy of an object of class type: fields of class type are copied in turn, pointers are shared"""
-    c = AObj({}, cls=o.cls, ftypes=o.ftypes)
+    c = AObj({}, oid=o.oid, cls=o.cls, ftypes=o.ftypes)
     c.ptrs = getattr(o, 'ptrs', frozenset())
     for k, v in o.attrs.items():
         c.attrs[k] = _copy_value(v, depth + 1) if (isinstance(v, AObj) and depth < 8 and k not in c.ptrs) else v
@@ -326,6 +332,20 @@ class AEval:
         elif k == 'decl':
             it = self._ity(a[1])
             env[a[0]] = self._wrap(self.ev(a[2], env, depth), it) if a[2] is not None else None
+            if a[2] is None and self.typed and a[1] and a[1].rstrip().endswith(']'):
+                # `T name[N];` - a local array without initialiser: N cells (objects of class type are default-made)
+                import re as _re
+                m_ = _re.match(r'^(.*?)\s*\[(\d+)\]\s*$', a[1])
+                if m_:
+                    elem, n_ = m_.group(1).replace('const ', '').strip(), int(m_.group(2))
+                    lib_ = getattr(self.module, 'lib', None)
+                    if self._ity(elem) is not None or lib_ is None:
+                        env[a[0]] = [0] * n_
+                    else:
+                        try:
+                            env[a[0]] = [cxx_object(lib_, elem if elem.startswith('ace_') else 'ace_time::' + elem) for _ in range(n_)]
+                        except Exception:
+                            env[a[0]] = [None] * n_
             env.pop('\x00ref:' + a[0], None)
             if it is not None:
                 env['\x00ty:' + a[0]] = it
@@ -430,11 +450,11 @@ class AEval:
                 raise AnalysisError('abstract evaluation: attribute store on %r at %s' % (o, tgt.loc))
             if self.typed and getattr(o, 'ftypes', None):
                 v = self._wrap(v, o.ftypes.get(tgt.a[1]))
-            o.attrs[tgt.a[1]] = v
+            o.attrs[tgt.a[1]] = self._by_value(tgt, v)
         elif tgt.k == 'index':
             o = self.ev(tgt.a[0], env, depth)
             i = self.ev(tgt.a[1], env, depth)
-            o[i] = v
+            o[i] = self._by_value(tgt, v)
         elif tgt.k == 'init' and tgt.a[0] in ('tuple', 'list'):
             for t, x in zip(tgt.a[1], v):
                 self.store(t, x, env, depth)
@@ -447,6 +467,13 @@ class AEval:
             self.store(tgt.a[2], v, env, depth)
         else:
             raise AnalysisError('abstract evaluation: store to %s at %s' % (show(tgt), tgt.loc))
+
+    def _by_value(self, tgt, v):
+        """C++ value semantics: an object stored into a member or an array cell of class type is copied; one stored into a cell
+        of pointer or reference type is shared"""
+        if self.typed and isinstance(v, AObj) and tgt.ty and '*' not in tgt.ty and '&' not in tgt.ty and v.cls:
+            return _copy_value(v)
+        return v
 
     # -- expressions --------------------------------------------------------------------------
     @staticmethod
@@ -860,7 +887,7 @@ class AEval:
                     vals = [self.ev(x, env, depth) for x in args_e]
                     def fits(c_):
                         for v_, t_ in zip(vals, c_.ptypes):
-                            if isinstance(v_, AObj) and v_.cls and t_ and v_.cls.split('::')[-1] not in t_:
+                            if isinstance(v_, AObj) and v_.cls and t_ and not _re_word(v_.cls.split('::')[-1].split('<')[0], t_):
                                 return False
                         return True
                     ok_ = [c_ for c_ in cands if fits(c_)]
